@@ -77,7 +77,8 @@ try:
             rc, out = sh("git -C /repo apply %s" % diff)
         try:
             for c in checks:
-                env = ""
+                os.makedirs(wt + "_out", exist_ok=True)
+                env = "PCFG_OUT=%s " % (wt + "_out")      # never write evidence of a changed tree into /verif/evidence
                 if not in_repo:
                     # private copy of the Coq tree: regenerated constants must not disturb checks running against /repo
                     coqcopy = wt + "_coq"
